@@ -146,7 +146,15 @@ pub fn gen_case(rng: &mut Rng, corpus: &[String]) -> Option<Case01> {
         1 => rng.range(13, 60),
         _ => rng.range(61, 400),
     };
-    let input = inputgen::gen_input(rng, &refs, flags.term, nlines);
+    let mut input = inputgen::gen_input(rng, &refs, flags.term, nlines);
+    // An input that starts with a byte-order mark is searched as its
+    // transcoding (C17); keep C01's inputs out of that class.
+    if input.starts_with(b"\xef\xbb\xbf")
+        || input.starts_with(b"\xff\xfe")
+        || input.starts_with(b"\xfe\xff")
+    {
+        input.insert(0, b'x');
+    }
     Some(Case01 { patterns, flags, input })
 }
 
@@ -287,14 +295,21 @@ pub fn check_case(case: &Case01, rng_cap: usize, rep: &mut Report) -> bool {
                     lines.iter().find(|l| l.start as u64 == o).copied()
                 });
                 let detail = classify(case, &orc, wline, invert);
-                let sig = format!(
-                    "C01:{}:{}:{}{}{}",
-                    term.name(),
-                    dir,
-                    name,
-                    if invert { ":inverted" } else { "" },
-                    detail
-                );
+                let sig = if detail
+                    == ":unicode-word-boundary-next-to-invalid-utf8"
+                {
+                    "C01:unicode-word-boundary-next-to-invalid-utf8"
+                        .to_string()
+                } else {
+                    format!(
+                        "C01:{}:{}:{}{}{}",
+                        term.name(),
+                        dir,
+                        name,
+                        if invert { ":inverted" } else { "" },
+                        detail
+                    )
+                };
                 rep.violation(
                     &sig,
                     format!(
@@ -341,6 +356,37 @@ fn classify(
         Some(l) => l,
         None => return String::new(),
     };
+    // Known regex-engine quirk: a Unicode word boundary assertion decodes
+    // the preceding bytes; next to invalid UTF-8 its answer depends on bytes
+    // further back (regex-automata's backward decoder accepts a shorter
+    // valid character in front of a stray continuation byte). The verdict
+    // on a line then depends on whether the regex sees the line alone or
+    // inside the buffer. Recognised only when all three hold: the compiled
+    // pattern has a Unicode word boundary, the bytes around the line are
+    // not valid UTF-8, and evaluating the same reference regex on the line
+    // *in its buffer context* flips the oracle's stand-alone verdict.
+    if let Ok((hir, _)) =
+        oracle::matcher_builder(&case.flags).verif_describe(&case.patterns)
+    {
+        if hir.properties().look_set().contains_word_unicode() {
+            let from = l.start.saturating_sub(4);
+            let region = &case.input[from..l.end];
+            if std::str::from_utf8(region).is_err() {
+                let alone = orc.line_matches(&case.input[l.start..l.content_end]);
+                let in_ctx = orc
+                    .re
+                    .search(
+                        &regex_automata::Input::new(&case.input[..])
+                            .span(l.start..l.content_end),
+                    )
+                    .is_some();
+                if alone != in_ctx {
+                    return ":unicode-word-boundary-next-to-invalid-utf8"
+                        .into();
+                }
+            }
+        }
+    }
     if case.flags.term != Term::Crlf {
         return String::new();
     }
